@@ -282,8 +282,7 @@ Enter(st0, n, rest, cf) ==
              r1 == StartBlock(top)
              r2 == IF lay.tw # 0 /\ cf.borders THEN AddLine(r1, BL(Rep(GS, lay.tw), r1.ann)) ELSE r1
              rows == [i \in 1..Len(n.c) |-> [e |-> "row", row |-> n.c[i], cw |-> lay.cw, vert |-> lay.vert]]
-         IN IF lay.stuck THEN Fail(st, "panic:shrink") ELSE [SetTop(st, r2) EXCEPT !.todo = rows \o rest]
-                 \* (the table's own pushed style is never unwound: render_table_tree drops it)
+         IN IF lay.stuck THEN Fail(st, "panic:shrink") ELSE [SetTop(st, r2) EXCEPT !.todo = rows \o unw \o rest]
     [] OTHER -> Fail(st, "panic:unexpected-node")
 
 RStep(st, cf) ==
